@@ -31,7 +31,7 @@ SUCCEEDED = 23
 def gen_cases(tier, seed):
     n = 40 if tier == "quick" else 700
     cases = [{"id": f"c07-{seed}-{i}", "seed": seed * 5003 + i} for i in range(n)]
-    cases += [{"id": f"c07-directed-{k}", "seed": seed, "scenario": k} for k in ("optional", "optional_amend", "renamed_output")]
+    cases += [{"id": f"c07-directed-{k}", "seed": seed, "scenario": k} for k in ("optional", "optional_amend", "renamed_output", "touched_orphan")]
     return cases
 
 
@@ -212,6 +212,13 @@ def run_directed(case):
         for k, cur in enumerate(specs):
             ledger.note_user_files(cur)
             files = gen.render(cur, previous=files)
+            if case["scenario"] == "touched_orphan" and k == 1:
+                # the outputs get a new time stamp, not a new content (touch, a restored backup, a
+                # checkout): they are still what StepUp built, so they go when their steps go
+                for path in ("out/o.txt", "out/d.txt"):
+                    st = os.stat(path)
+                    os.utime(path, ns=(st.st_atime_ns, st.st_mtime_ns + 7_000_000_000))
+                    counters["outputs_touched"] = counters.get("outputs_touched", 0) + 1
             bf, bd = c06.tree(".")
             b = H.run_build({"njob": 2}, ctl=H.Controller("free", rng.randrange(1 << 30)), timeout=60)
             af, ad = c06.tree(".")
